@@ -402,18 +402,18 @@ fn exec(op: &Op, l: &mut Local, t: &Arc<Tables>) -> Result<ObsVal, String> {
             drop(g);
             Ok(ObsVal::Unit)
         }
-        Op::LcCollect { set } => match l.guards.pop() {
-            Some(Guard::Collector(c)) => {
-                let spans = c.collect();
-                lock(&t.sets).insert(*set, spans);
-                Ok(ObsVal::Unit)
+        Op::LcCollect { set } => {
+            // the innermost local collector; local spans opened under it may still be open (they
+            // are closed at the collection time and their guards are released afterwards)
+            let pos = l.guards.iter().rposition(|g| matches!(g, Guard::Collector(_))).ok_or("collect without a local collector")?;
+            if l.guards[pos + 1..].iter().any(|g| !matches!(g, Guard::Local(_))) {
+                return Err("a scope is open above the local collector".into());
             }
-            Some(g) => {
-                l.guards.push(g);
-                Err("innermost guard is not a local collector".into())
-            }
-            None => Err("collect on empty guard stack".into()),
-        },
+            let Guard::Collector(c) = l.guards.remove(pos) else { unreachable!() };
+            let spans = c.collect();
+            lock(&t.sets).insert(*set, spans);
+            Ok(ObsVal::Unit)
+        }
         Op::LocalAddProps { props } => {
             LocalSpan::add_properties(counted!(props));
             Ok(ObsVal::Unit)
@@ -579,6 +579,7 @@ fn exec(op: &Op, l: &mut Local, t: &Arc<Tables>) -> Result<ObsVal, String> {
         Op::Reentrant { outer, inner } => exec_reentrant(outer, inner, l, t),
         Op::Cycle => {
             let ok = fastrace::verif::run_collector_cycle();
+            sched().world().cycle_in_progress = false;
             Ok(ObsVal::Count(ok as u64))
         }
         Op::Flush => {
